@@ -103,7 +103,8 @@ Inductive lop :=
 | LIter                                   (* list(iter(p)) *)
 | LReversed                               (* list(reversed(p)) *)
 | LEq (o : pyval)
-| LNe (o : pyval).
+| LNe (o : pyval)
+| LNew (it : iterable).                   (* ListProxy(cfg, field, it): a new typed list *)
 
 Definition it_items (self : list pyval) (it : iterable) : list pyval :=
   match it with
@@ -339,6 +340,7 @@ Definition b_step (s : list pyval) (op : lop) : list pyval * res pyval :=
   | LReversed => (s, Ok (PList 0 (rev s)))
   | LEq o => (s, Ok (PBool (b_eq s o)))
   | LNe o => (s, Ok (PBool (negb (b_eq s o))))
+  | LNew it => (s, Ok (PList 0 (it_items s it)))       (* list(it) *)
   end.
 
 (* ------------------------------------------------------------------------------------------ *)
@@ -437,6 +439,7 @@ Definition lop_entry (op : lop) : string :=
   | LReversed => "__reversed__"
   | LEq _ => "__eq__"
   | LNe _ => "__ne__"
+  | LNew _ => "__init__"
   end.
 Close Scope string_scope.
 
@@ -521,6 +524,12 @@ Section Proxy.
         | Err e => (s, Err e)
         | Unmodelled => (s, Unmodelled)
         end
+    | LNew it =>                      (* ListProxy.__init__: fast path for a proxy of the same item field *)
+        match p_init (it_same it) (it_items s it) with
+        | Ok c => (s, Ok (PList tg c))
+        | Err e => (s, Err e)
+        | Unmodelled => (s, Unmodelled)
+        end
     | _ => b_step s op                (* no other override exists *)
     end.
 
@@ -546,6 +555,7 @@ Section Proxy.
     | LIAdd it => LIAdd (norm_it s it)
     | LAdd it => LAdd (norm_it s it)
     | LSetSlice sl it => LSetSlice sl (norm_it_slow s it)
+    | LNew it => LNew (norm_it s it)
     | _ => op
     end.
 
@@ -553,14 +563,14 @@ Section Proxy.
   Definition accepted (s : list pyval) (op : lop) : bool :=
     match op with
     | LAppend x | LInsert _ x | LSetItem _ x => okb x
-    | LExtend it | LIAdd it | LAdd it => it_same it || forallb okb (it_items s it)
+    | LExtend it | LIAdd it | LAdd it | LNew it => it_same it || forallb okb (it_items s it)
     | LSetSlice _ it => forallb okb (it_items s it)
     | _ => true
     end.
 
   (* copies and concatenations of a typed list are typed: the builtin's result carries the tag *)
   Definition typed_result (op : lop) : bool :=
-    match op with LCopy | LAdd _ => true | _ => false end.
+    match op with LCopy | LAdd _ | LNew _ => true | _ => false end.
   Definition retag (op : lop) (r : res pyval) : res pyval :=
     if typed_result op then match r with Ok (PList _ l) => Ok (PList tg l) | _ => r end else r.
 
